@@ -27,6 +27,7 @@ type datadogCFRequestDec struct {
 
 func (d *datadogCFRequestDec) Decode() error {
 	scanner := bufio.NewScanner(d.ctx.bodyReader)
+	scanner.Buffer(make([]byte, 0, 64*1024), maxNDJSONLine)
 	scanner.Split(bufio.ScanLines)
 
 	d.DDSource = d.ctx.ctxMap["ddsource"]
@@ -45,6 +46,9 @@ func (d *datadogCFRequestDec) Decode() error {
 		if err != nil {
 			return err
 		}
+	}
+	if err := scanner.Err(); err != nil {
+		return customErrors.NewUnmarshalError(err)
 	}
 	return nil
 }
